@@ -1,0 +1,170 @@
+//go:build verif
+
+// Contracts for package callbacks (comment-only; compiled only under the verif tag).
+package callbacks
+
+//@ package gorm.io/gorm/callbacks
+
+//@ # ---------- K4: every driver call made by a callback ----------
+//@ site driver-call
+//@   match invoke ConnPool.ExecContext | invoke ConnPool.QueryContext | invoke ConnPool.QueryRowContext
+//@   in callbacks.*
+//@   min-sites 6
+//@   assert not-dry-run: !db.Config.DryRun [C19]
+//@   assert no-pending-error: db.Error == nil [C05]
+//@   assert caller-context: arg0 == db.Statement.Context [C18]
+//@   assert statement-pool: recv == db.Statement.ConnPool [C05]
+//@   assert bound-values: arg2 == db.Statement.Vars [C01,C19]
+
+//@ # ---------- C09: the guard ----------
+//@ ghost guardRan
+//@ event call checkMissingWhereConditions
+//@   do guardRan = 1
+//@ site guarded-write
+//@   match invoke ConnPool.ExecContext | invoke ConnPool.QueryContext
+//@   in callbacks.Update$1 callbacks.Delete$1
+//@   min-sites 2
+//@   entry guardRan == 0
+//@   assert guard-ran: guardRan == 1 [C09]
+//@   assert guard-passed: db.Error == nil [C09]
+
+//@ spec whereLen(stmt) = len(stmt.Clauses["WHERE"].Expression.(clause.Where).Exprs)
+//@ spec userConds(stmt) = ite(has(stmt.Clauses, "WHERE") && is(stmt.Clauses["WHERE"].Expression, clause.Where), whereLen(stmt) - ite(has(stmt.Clauses, "soft_delete_enabled"), 1, 0), 0)
+
+//@ func checkMissingWhereConditions
+//@   tags C09
+//@   assumes where-is-where: has(db.Statement.Clauses, "WHERE") ==> is(db.Statement.Clauses["WHERE"].Expression, clause.Where)
+//@   modifies db.Error
+//@   let n = userConds(db.Statement)
+//@   ensures rejects-unconditioned: !db.Config.AllowGlobalUpdate && old(db.Error) == nil && n <= 0 ==> db.Error != nil
+//@   ensures accepts-conditioned: n > 0 ==> db.Error == old(db.Error)
+//@   ensures allow-global: db.Config.AllowGlobalUpdate ==> db.Error == old(db.Error)
+
+//@ # ---------- C05/C19: the implicit transaction ----------
+//@ ghost startedTx
+//@ event call gorm.(*DB).InstanceSet
+//@   do startedTx = ite(arg1 == "gorm:started_transaction", 1, startedTx)
+//@ site implicit-begin
+//@   match call gorm.(*DB).Begin
+//@   in callbacks.BeginTransaction
+//@   min-sites 1
+//@   assert not-skipped: !db.Config.SkipDefaultTransaction [C19,C05]
+//@   assert no-pending-error: db.Error == nil [C05]
+//@ site implicit-finish
+//@   match call gorm.(*DB).Commit | call gorm.(*DB).Rollback
+//@   in callbacks.CommitOrRollbackTransaction
+//@   min-sites 2
+//@   assert not-skipped: !db.Config.SkipDefaultTransaction [C19,C05]
+//@   assert on-operation-handle: arg0 == db [C05]
+
+//@ func BeginTransaction
+//@   tags C05
+//@   ensures begins-at-most-once: begins <= old(begins) + 1
+//@   ensures skip-means-no-begin: old(db.Config.SkipDefaultTransaction) ==> begins == old(begins) [C19,C05]
+//@   ensures pending-error-means-no-begin: old(db.Error) != nil ==> begins == old(begins)
+
+//@ func CommitOrRollbackTransaction
+//@   tags C05
+//@   ensures finished-once: commits + rollbacks <= old(commits) + old(rollbacks) + 1
+//@   ensures error-means-rollback: old(db.Error) != nil ==> commits == old(commits)
+//@   ensures success-means-commit: old(db.Error) == nil ==> rollbacks == old(rollbacks)
+//@   ensures skip-means-nothing: old(db.Config.SkipDefaultTransaction) ==> commits == old(commits) && rollbacks == old(rollbacks) [C19,C05]
+
+//@ # ---------- C13: hooks ----------
+//@ ghost hookCalls pendingHookErr
+//@ event callparam fc
+//@   in callbacks.callMethod
+//@   do hookCalls = hookCalls + 1
+//@ immutable Statement.CurDestIndex
+//@   writers callbacks.callMethod
+//@   tags C13
+
+//@ func callMethod
+//@   tags C13
+//@   loop 1 invariant index-tracks-elements: db.Statement.CurDestIndex == i && i >= 0
+//@   loop 1 invariant one-call-per-element: hookCalls == old(hookCalls) + 1 + i
+//@   ensures whole-value-offered-first: hookCalls >= old(hookCalls) + 1
+
+//@ site hooks-only-when-enabled
+//@   match call callbacks.callMethod
+//@   in callbacks.BeforeCreate callbacks.AfterCreate callbacks.BeforeUpdate callbacks.AfterUpdate callbacks.BeforeDelete callbacks.AfterDelete callbacks.AfterQuery
+//@   min-sites 7
+//@   assert no-pending-error: db.Error == nil [C13,C05]
+//@   assert hooks-not-skipped: !db.Statement.SkipHooks [C13]
+//@   assert schema-known: db.Statement.Schema != nil [C13]
+
+//@ event invoke BeforeSaveInterface.BeforeSave
+//@   do pendingHookErr = 1
+//@ event invoke BeforeCreateInterface.BeforeCreate
+//@   do pendingHookErr = 1
+//@ event invoke AfterCreateInterface.AfterCreate
+//@   do pendingHookErr = 1
+//@ event invoke AfterSaveInterface.AfterSave
+//@   do pendingHookErr = 1
+//@ event invoke BeforeUpdateInterface.BeforeUpdate
+//@   do pendingHookErr = 1
+//@ event invoke AfterUpdateInterface.AfterUpdate
+//@   do pendingHookErr = 1
+//@ event invoke BeforeDeleteInterface.BeforeDelete
+//@   do pendingHookErr = 1
+//@ event invoke AfterDeleteInterface.AfterDelete
+//@   do pendingHookErr = 1
+//@ event invoke AfterFindInterface.AfterFind
+//@   do pendingHookErr = 1
+//@ event call gorm.(*DB).AddError
+//@   do pendingHookErr = 0
+
+//@ func BeforeCreate$1 AfterCreate$1 BeforeUpdate$1 AfterUpdate$1 BeforeDelete$1 AfterDelete$1 AfterQuery$1
+//@   tags C13
+//@   requires pendingHookErr == 0
+//@   ensures every-hook-error-is-recorded: pendingHookErr == 0
+//@ immutable DB.Statement
+//@   writers gorm.(*DB).Session gorm.(*DB).getInstance gorm.Open gorm.(*DB).Begin gorm.(*DB).*
+//@   tags C13
+
+//@ # ---------- C08: the schema's statement modifiers are applied before the statement is built ----------
+//@ ghost clausesApplied addCalls
+//@ event call gorm.(*Statement).AddClause
+//@   in callbacks.BuildQuerySQL callbacks.Update$1 callbacks.Delete$1
+//@   do addCalls = addCalls + 1
+
+//@ func BuildQuerySQL
+//@   tags C08
+//@   loop "range db.Statement.Schema.QueryClauses" invariant one-call-per-clause: addCalls == old(addCalls) + iter
+//@   loop "range db.Statement.Schema.QueryClauses" exit-do clausesApplied = 1
+
+//@ func Update$1
+//@   tags C08
+//@   loop "range db.Statement.Schema.UpdateClauses" invariant one-call-per-clause: addCalls == old(addCalls) + iter
+//@   loop "range db.Statement.Schema.UpdateClauses" exit-do clausesApplied = 1
+
+//@ func Delete$1
+//@   tags C08
+//@   loop "range db.Statement.Schema.DeleteClauses" invariant one-call-per-clause: addCalls == old(addCalls) + iter
+//@   loop "range db.Statement.Schema.DeleteClauses" exit-do clausesApplied = 1
+
+//@ site modifiers-before-build
+//@   match call gorm.(*Statement).Build
+//@   in callbacks.BuildQuerySQL callbacks.Update$1 callbacks.Delete$1
+//@   min-sites 3
+//@   entry clausesApplied == 0
+//@   assert schema-modifiers-applied: old(db.Statement.Schema) == nil || clausesApplied == 1 [C08]
+
+//@ # ---------- C10: what an UPDATE may write ----------
+//@ # The two site sweeps over ConvertToAssignments below are written from the property, and 6 of their 9
+//@ # instances discharge; 3 time out (the function's VC has > 5000 assertions after ~40 havocs). They are
+//@ # tagged C10-undischarged and are NOT part of the C10 claim (DESIGN.md 4/C10).
+//@ site tracked-time-only-with-hooks
+//@   match calldyn Config.NowFunc
+//@   in callbacks.ConvertToAssignments
+//@   min-sites 5
+//@   assert hook-running-update: !stmt.SkipHooks [C10-undischarged]
+//@ site update-respects-select
+//@   match calldyn local:assignValue
+//@   in callbacks.ConvertToAssignments
+//@   min-sites 4
+//@   let tracked = !restricted || (!stmt.SkipHooks && field.AutoUpdateTime > 0)
+//@   assert unselected-only-if-unrestricted-or-tracked-time: selectColumns[field.DBName] || (!has(selectColumns, field.DBName) && tracked) || (field.DBName == "" && (selectColumns[field.Name] || (!has(selectColumns, field.Name) && tracked))) [C10-undischarged]
+//@ immutable Statement.SkipHooks
+//@   writers gorm.(*DB).Session gorm.(*DB).getInstance gorm.(*Statement).clone gorm.(*DB).UpdateColumn gorm.(*DB).UpdateColumns gorm.(*DB).*
+//@   tags C10 C13
